@@ -368,10 +368,35 @@ func FsFaults(n int) {}
 // ZipEntry registers an archive entry for the engine's zip.OpenReader stub.
 func ZipEntry(name string) { zipNames = append(zipNames, name) }
 
-// NopReader is an empty io.ReadCloser (contents of stubbed archive entries).
-type NopReader struct{}
+// ZipEntryDamaged registers an archive entry whose content cannot be read to
+// its end: kind 1 = the data breaks off (io.ErrUnexpectedEOF), kind 2 = wrong
+// checksum (zip.ErrChecksum), kind 0 = intact.
+func ZipEntryDamaged(name string, kind int) {
+	zipNames = append(zipNames, name)
+	if zipDamage == nil {
+		zipDamage = map[string]int{}
+	}
+	zipDamage[name] = kind
+}
 
-func (*NopReader) Read(p []byte) (int, error) { return 0, errEOF }
+var zipDamage map[string]int
+
+// (natively the real zip reader reports the real zip.ErrChecksum)
+var zipErrChecksum = fmt.Errorf("zip: checksum error")
+
+// NopReader is the io.ReadCloser of stubbed archive entries: empty, or failing
+// like a damaged entry (see ZipEntryDamaged).
+type NopReader struct{ Kind int }
+
+func (r *NopReader) Read(p []byte) (int, error) {
+	switch r.Kind {
+	case 1:
+		return 0, io.ErrUnexpectedEOF
+	case 2:
+		return 0, zipErrChecksum
+	}
+	return 0, errEOF
+}
 func (*NopReader) Close() error               { return nil }
 
 // FsFaultOps restricts which file-system operations may fail (comma list of
